@@ -28,7 +28,7 @@ FLOORS = {"quick": {"decisions": 30000, "decisions_multi_class": 8000, "equal_st
                        "resets": 60000, "reset_forks": 1000, "first_of_busy_period_stamped": 60000,
                        "fairness_checks": 60000, "kind_WFQ": 6000, "kind_VC": 6000, "many_to_one_cases": 2000}}
 KEYS = tuple(FLOORS["quick"].keys()) + ("back_to_back", "idle_then_arrival", "arrival_at_tx_end",
-                                         "arrival_at_tx_end_after_departure", "worlds_dropped")
+                                         "arrival_at_tx_end_after_departure", "worlds_dropped", "arrived_between_pick_and_start")
 
 
 def plan(tier):
@@ -63,7 +63,7 @@ class World:
             self.F[c] = 0.0
 
     def key(self):
-        return (self.V, tuple(sorted(self.F.items())), self.last, tuple(sorted(self.stamp.items())))
+        return (self.V, tuple(sorted(self.F.items(), key=repr)), self.last, tuple(sorted(self.stamp.items(), key=repr)))
 
 
 def stamp_rule(run, stats, bad):
@@ -85,10 +85,13 @@ def stamp_rule(run, stats, bad):
             return a < b
         return a < b - 1e-9 * max(1.0, abs(a), abs(b))
 
-    for _, k, e in events:
+    aseq = {}                  # uid -> kernel step of its arrival
+    prev_dep = -1              # kernel step of the latest departure
+    for sq, k, e in events:
         t, u, f, size = e[2], e[3], e[4], e[5]
         c = f2c(f)
         if k == "in":
+            aseq[u] = e[1]           # kernel step of the arrival
             if kind == "VC":
                 for w in worlds:
                     w.F[c] = max(t, w.F[c]) + tbl[c]
@@ -129,6 +132,15 @@ def stamp_rule(run, stats, bad):
                 stats["decisions_multi_class"] += 1
             keep = []
             tie = False
+            # The boundary sees the start of the transmission, not the moment the scheduler took the packet out of
+            # its queue (a few kernel steps earlier in the same instant).  The scheduler resumes in a later kernel
+            # step than the event that enabled the decision (the previous departure, or the arrival that ended the
+            # idle period), so everything that had arrived up to and including that step was certainly in the queue.
+            # A packet that arrived in a later step of the instant is counted, not judged (it is judged at the next decision).
+            oldest = min(aseq[v] for v in worlds[0].stamp) if worlds[0].stamp else -1
+            certain = {v for v in worlds[0].stamp if aseq[v] <= max(prev_dep, oldest)}
+            if len(certain) < len(worlds[0].stamp) - (0 if u in certain else 1):
+                stats["arrived_between_pick_and_start"] += 1
             for w in worlds:
                 if u not in w.stamp:
                     bad("decided-packet-not-waiting", "a packet was handed to transmission that was not waiting", u)
@@ -136,7 +148,7 @@ def stamp_rule(run, stats, bad):
                 su = w.stamp[u]
                 ok = True
                 for v, sv in w.stamp.items():
-                    if v == u:
+                    if v == u or v not in certain:
                         continue
                     if strictly_less(sv[0], su[0]):
                         ok = False
@@ -172,6 +184,7 @@ def stamp_rule(run, stats, bad):
                     uniq.append(w)
             worlds = uniq[:8]
         else:
+            prev_dep = e[1]          # kernel step of the departure
             if kind == "WFQ":
                 ws = 0.0
                 for cc in classes:
